@@ -43,3 +43,21 @@ def miri_crash_policy(pid):
             return ("violated", f"{pid}/miri/panic", tail[-1500:])
         return ("inconclusive", f"harness/miri-exit-{rc}", tail[-300:])
     return pol
+
+
+def generic_replay(pid, builder):
+    def replay(r):
+        import subprocess
+        builder()
+        cmd = r["replay"]["cmd"]
+        print("replaying:", cmd)
+        p = subprocess.run(cmd, shell=True, capture_output=True, text=True, timeout=3600)
+        out = p.stdout + p.stderr
+        print(out[-3000:])
+        recs = vlib.parse_records(out)
+        bad = [x for x in recs if x.get("t") == "end" and x.get("verdict") == "violated"]
+        if bad or p.returncode != 0:
+            print(f"VIOLATION property={pid} replay={r.get('signature')}")
+            return 1
+        return 0
+    return replay
